@@ -20,6 +20,10 @@ CLAIMED = {
             "DESIGN.md §4 C08"),
     "C10": ("model_checking", "same histories with 5 position holders: per transaction every other trader's whole Position record is proved equal term-for-term before and after (Liquidate: except the named trader)",
             "DESIGN.md §4 C10"),
+    "C12": ("model_checking", "shared histories with toll and spread symbolic in [0,1] and amounts down to fee-rounds-to-zero: per transaction z3 proves fee-pool delta == floor(notional*toll), insurance-fund delta (net of recorded prepaid bad debt) == floor(notional*spread) with notional = floor(margin*leverage), once per reversal, the quoted fee on the open notional for whole closes, and zero for deposit/withdraw/funding/liquidation",
+            "DESIGN.md §4 C12"),
+    "C17": ("model_checking", "vAMM alone from ALL reserve pairs with symbolic amount and limit: InputAmount/OutputAmount query before == reserve deltas, net-position delta and event attributes after; limit semantics with the limit on both sides of the executed amount; through the engine the limit inside the delivered vAMM sub-message is proved equal to the caller's on fresh/increase/reduce/whole close",
+            "DESIGN.md §4 C17"),
     "C19": ("model_checking", "two engines: (1) Kani/CBMC bit-precise harnesses over ALL 2^129 operand representations (incl. -0) for add/sub/neg/abs/constructors/cmp/eq/sign predicates and checked-vs-unchecked agreement, loop-free so complete for the input space (thorough adds full-width checked_mul); (2) symx/z3 for full-width mul, truncating div, add/sub, ordering and the Display/FromStr/serde round trip with symbolic 128-bit magnitudes",
             "DESIGN.md §3, §4 C19"),
 }
